@@ -932,7 +932,12 @@ class Simplifier(pysmt.walkers.DagWalker):
         s, i = args
         if s.is_string_constant() and i.is_int_constant():
             i_value = cast(int, i.constant_value())
-            res = cast(str, s.constant_value())[i_value:i_value + 1]
+            s_value = cast(str, s.constant_value())
+            if i_value < 0:
+                # Out of range: SMT-LIB returns the empty string
+                # (negative indexes must not wrap around)
+                return self.manager.String("")
+            res = s_value[i_value:i_value + 1]
             return self.manager.String(res)
         return self.manager.StrCharAt(s, i)
 
@@ -946,10 +951,12 @@ class Simplifier(pysmt.walkers.DagWalker):
     def walk_str_indexof(self, formula: FNode, args: List[FNode], **kwargs) -> FNode:
         s, t, i = args
         if s.is_string_constant() and t.is_string_constant() and i.is_int_constant():
-            idx = cast(str, s.constant_value()).find(
-                cast(str, t.constant_value()),
-                cast(int, i.constant_value()),
-            )
+            s_value = cast(str, s.constant_value())
+            i_value = cast(int, i.constant_value())
+            if i_value < 0 or i_value > len(s_value):
+                # Out of range start position: SMT-LIB returns -1
+                return self.manager.Int(-1)
+            idx = s_value.find(cast(str, t.constant_value()), i_value)
             # idx = -1, if t is not found
             return self.manager.Int(idx)
         return self.manager.StrIndexOf(s, t, i)
@@ -967,7 +974,12 @@ class Simplifier(pysmt.walkers.DagWalker):
         s, i, j = args
         if s.is_string_constant() and i.is_int_constant() and j.is_int_constant():
             start_ = cast(int, i.constant_value())
-            end_ = cast(int, i.constant_value()) + cast(int, j.constant_value())
+            len_ = cast(int, j.constant_value())
+            if start_ < 0 or len_ <= 0:
+                # Out of range: SMT-LIB returns the empty string
+                # (negative values must not be interpreted as python slices)
+                return self.manager.String("")
+            end_ = start_ + len_
             res = cast(str, s.constant_value())[start_:end_]
             return self.manager.String(res)
         return self.manager.StrSubstr(s, i, j)
@@ -987,10 +999,12 @@ class Simplifier(pysmt.walkers.DagWalker):
     def walk_str_to_int(self, formula: FNode, args: List[FNode], **kwargs) -> FNode:
         s = args[0]
         if s.is_string_constant():
-            try:
-                return self.manager.Int(int(s.constant_value()))
-            except ValueError:
-                return self.manager.Int(-1)
+            s_value = cast(str, s.constant_value())
+            # Only non-empty sequences of digits denote a number
+            # (int() also accepts signs, blanks and underscores)
+            if len(s_value) > 0 and all(c in "0123456789" for c in s_value):
+                return self.manager.Int(int(s_value))
+            return self.manager.Int(-1)
         return self.manager.StrToInt(s)
 
     def walk_int_to_str(self, formula: FNode, args: List[FNode], **kwargs) -> FNode:
